@@ -58,6 +58,8 @@ class Worker:
         self.patched = False
         self.scratch = None
         self.seq = 0
+        self.objs = {}
+        self.cur = None
 
     # ---------------------------------------------------------------- counting RNG
     def _record(self):
@@ -239,25 +241,62 @@ class Worker:
         elif spec["iv"] == "none":
             kw["ctr_init_vector"] = None
         m = cls(**kw)
+        self.cur = {"obj": m, "data": None}
         return [self._o("ctr_init_vector", m.ctr_init_vector, sup)]
 
-    def b_mbi_cfg(self, spec, sup):
-        from spsdk.image.mbi.mbi import get_mbi_class
+    def _mbi_cfg(self, spec, sup):
         cfg = {"family": spec["family"], "revision": "latest", "outputImageExecutionTarget": "load-to-ram",
                "outputImageAuthenticationType": "signed-encrypted", "masterBootOutputFile": "mbi.bin", "inputImageFile": "app.bin",
                "outputImageExecutionAddress": 0x80000, "enableHwUserModeKeys": False, "enableTrustZone": False,
                "rootCertificate0File": "c.der", "mainRootCertId": 0, "signPrivateKey": "k.pem", "outputImageEncryptionKeyFile": spec["key"]}
         if "ctr_init_vector" in sup:
             cfg["CtrInitVector"] = "0x" + sup["ctr_init_vector"].hex()
-        m = get_mbi_class(cfg)()
-        m.load_from_config(cfg, search_paths=[self.scratch])
+        return cfg
+
+    def _mbi_obs(self, m, spec, sup):
         out = [self._o("ctr_init_vector", m.ctr_init_vector, sup)]
+        data = None
         if spec.get("export"):
             data = m.export()
             iv = m.ctr_init_vector
             pos = data.find(iv)
             out.append(("x_iv", data[pos:pos + 16] if pos >= 0 else b"", sup.get("ctr_init_vector")))
+        self.cur = {"obj": m, "data": data}
         return out
+
+    def b_mbi_cfg(self, spec, sup):
+        from spsdk.image.mbi.mbi import get_mbi_class
+        cfg = self._mbi_cfg(spec, sup)
+        m = get_mbi_class(cfg)()
+        m.load_from_config(cfg, search_paths=[self.scratch])
+        return self._mbi_obs(m, spec, sup)
+
+    # ---- a builder object that already produced artifact A is used again for artifact B
+    def b_mbi_reload(self, spec, sup):
+        """`obj.load_from_config(cfgB)` on the object of an earlier build (optionally exported in between)."""
+        src = self.objs[spec["reuse"]]
+        m = src["obj"]
+        if spec.get("export_before"):
+            m.export()
+        m.load_from_config(self._mbi_cfg(spec, sup), search_paths=[self.scratch])
+        return self._mbi_obs(m, spec, sup)
+
+    def b_mbi_setiv(self, spec, sup):
+        """`obj.ctr_init_vector = None` (documented: "if not specified the random value is used") or a new user value."""
+        m = self.objs[spec["reuse"]]["obj"]
+        m.ctr_init_vector = sup.get("ctr_init_vector")
+        self.cur = {"obj": m, "data": None}
+        return [self._o("ctr_init_vector", m.ctr_init_vector, sup)]
+
+    def b_mbi_parse(self, spec, sup):
+        """`MasterBootImage.parse(export of A)`: the IV is carried in by the data (field prefix d_ = given by the data)."""
+        from spsdk.image.mbi.mbi import MasterBootImage
+        src = self.objs[spec["reuse"]]
+        data = src["data"] if src["data"] is not None else src["obj"].export()
+        iv_a = src["obj"].ctr_init_vector
+        p = MasterBootImage.parse(spec["family"], data, dek=spec["key"])
+        self.cur = {"obj": p, "data": None}
+        return [("d_ctr_init_vector", p.ctr_init_vector, iv_a)]
 
     def b_otfad(self, spec, sup):
         from spsdk.utils.crypto.otfad import KeyBlob
@@ -368,12 +407,16 @@ class Worker:
         from spsdk.exceptions import SPSDKError
         res = []
         n0 = len(self.draws)
+        self.objs = {}
         for bi, spec in enumerate(builds):
             self.epoch = (hid, bi)
             here = self.epoch
+            self.cur = None
             try:
                 obs = self.build(spec)
                 err = None
+                if self.cur is not None:
+                    self.objs[bi] = self.cur
             except SPSDKError as exc:
                 obs, err = [], f"E:spsdk {str(exc)[:120]}"
             except Exception as exc:  # noqa: BLE001
@@ -628,7 +671,44 @@ def gen_history(rng):
             if twin["t"] == "mbi" and twin["iv"] == "given":
                 twin["iv"] = "absent"
         h.insert(rng.randrange(len(h) + 1), twin)
-    return h[:12]
+    h = h[:12]
+    if rng.random() < 0.45:
+        h = add_reuse_steps(rng, h[:9], keys)
+    return h
+
+
+def add_reuse_steps(rng, h, keys):
+    """Artifact B is built with the builder object that already built artifact A (`reuse` = index of A's build)."""
+    cands = [i for i, b in enumerate(h) if b["t"] == "mbi_cfg" or (b["t"] == "mbi" and b["family"] in MBI_FAMILIES[:2])]
+    if not cands or rng.random() < 0.6:
+        a = {"t": "mbi_cfg", "sup": {}, "family": rng.choice(MBI_FAMILIES[:2]), "key": rng.choice(keys), "export": rng.random() < 0.5}
+        if rng.random() < 0.4:
+            a["sup"]["ctr_init_vector"] = rhex(rng, 16)  # supplied for A only
+        h.append(a)
+        j = len(h) - 1
+    else:
+        j = rng.choice(cands)
+    a = h[j]
+    kind = rng.choice(["reload", "reload", "reload", "setiv", "parse"] if a["t"] == "mbi_cfg" else ["reload", "setiv"])
+    if kind == "parse":
+        h.append({"t": "mbi_parse", "sup": {}, "reuse": j, "family": a["family"], "key": a["key"]})
+        j = len(h) - 1
+        kind = "reload"
+    b = {"t": "mbi_" + kind, "sup": {}, "reuse": j, "family": a["family"], "key": a["key"] if rng.random() < 0.7 else rng.choice(keys)}
+    if rng.random() < 0.2:
+        b["sup"]["ctr_init_vector"] = rhex(rng, 16)
+    if kind == "reload":
+        b["export_before"] = h[j]["t"] == "mbi_cfg" and rng.random() < 0.5  # a parsed / bare object cannot export (no signature provider)
+        b["export"] = rng.random() < 0.5
+    h.append(b)
+    if rng.random() < 0.3:  # and once more on the same object
+        c = json.loads(json.dumps(b))
+        c["reuse"] = len(h) - 1
+        c["sup"] = {}
+        if c["t"] == "mbi_reload":
+            c["export_before"] = False
+        h.append(c)
+    return h
 
 
 def parse_table(line):
@@ -664,6 +744,7 @@ def check_history(ck, s, drv, tab, hist, res, seen_global, hid, hits):
     inp = {"history": hist}
     builds = res["builds"]
     chosen = []  # (artifact, field, value)
+    user_vals = {}  # value the user supplied -> first (artifact, type, field) it was supplied for
     ok_all = True
     for bi, (spec, b) in enumerate(zip(hist, builds)):
         if b["err"] is not None:
@@ -672,7 +753,9 @@ def check_history(ck, s, drv, tab, hist, res, seen_global, hid, hits):
             continue
         for o in b["obs"]:
             if o["sup"] is not None:
-                s.expect(o["v"] == o["sup"], inp, "a user-supplied key / nonce / IV is not used verbatim",
+                if not o["f"].startswith("d_"):
+                    user_vals.setdefault(o["sup"], (bi, spec["t"], o["f"]))
+                s.expect(o["v"] == o["sup"], inp, "a user-supplied key / nonce / IV (or the one carried by parsed data) is not used verbatim",
                          {"build": bi, "type": spec["t"], "field": o["f"], "value": o["v"]}, o["sup"])
             else:
                 if o["v"] is None or len(o["v"]) < 8:
@@ -682,10 +765,15 @@ def check_history(ck, s, drv, tab, hist, res, seen_global, hid, hits):
     # oracle: no value shared by two artifacts (exact bytes; also prefix of one another: x_pad is a 4-byte view)
     byval = {}
     for bi, t, f, v, o in chosen:
+        src = user_vals.get(v)
+        if src is not None and src[0] != bi:
+            s.expect(False, inp, "a value the user supplied for one artifact only ends up in another artifact for which nothing was supplied",
+                     {"supplied_for": {"build": src[0], "type": src[1], "field": src[2]}, "found_in": {"build": bi, "type": t, "field": f,
+                      "reuses_builder_of": hist[bi].get("reuse")}, "value": v}, "a fresh value")
         for (bj, tj, fj) in byval.get(v, []):
             if bj != bi:
                 s.expect(False, inp, "two independently built artifacts share a value SPSDK chose itself",
-                         {"a": {"build": bj, "type": tj, "field": fj}, "b": {"build": bi, "type": t, "field": f}, "value": v},
+                         {"a": {"build": bj, "type": tj, "field": fj}, "b": {"build": bi, "type": t, "field": f, "reuses_builder_of": hist[bi].get("reuse")}, "value": v},
                          "distinct values", finding=KNOWN.get((t, f)))
         byval.setdefault(v, []).append((bi, t, f))
     for v, users in byval.items():
@@ -836,7 +924,9 @@ HIST_RULE = ("random histories of 2..12 independent constructions drawn from {Bo
              "BootImageV21.load_from_config (+export), SBV2xAdvancedParams, encrypted MBI through constructor (IV absent / None / given) and "
              "load_from_config (+export), OTFAD KeyBlob (+filler) and OtfadNxp.load_from_config, IeeKeyBlob / IeeNxp.load_from_config (XTS/CTR, "
              "128/256), BEE PRDB / KIB / region header / BeeNxp.load_from_config, CsfHabSegment DEK / nonce helpers, BootImgRT.add_image, "
-             "load_hex_string / align_block_fill_random filler, SecureBootV1}, each field user-supplied or defaulted at random, same KEK/HMAC key reused across builds, "
+             "load_hex_string / align_block_fill_random filler, SecureBootV1}; in ~45% of the histories a builder object that already produced an artifact is USED "
+             "AGAIN for a second one (MBI: obj.load_from_config(second config) with / without export in between, obj.ctr_init_vector = None, "
+             "parse(export of A) then load_from_config) with nothing / something supplied for the second artifact; each field user-supplied or defaulted at random, same KEK/HMAC key reused across builds, "
              "one construction repeated; non-trivial = at least two artifacts of the history carry a self-chosen value")
 
 
